@@ -81,6 +81,9 @@ func (c *Client) Handshake() error {
 			}
 
 			err := c.clientHandshakeLocked()
+			if vt.On {
+				vt.Yield("cl.hs.returned")
+			}
 			if err != nil {
 				// Store the error before publishing clientStateError so concurrent callers cannot observe an uninitialized result.
 				c.err = err
@@ -88,6 +91,9 @@ func (c *Client) Handshake() error {
 					c.hs = nil
 					c.ss = nil
 				}
+			}
+			if vt.On {
+				vt.Yield("cl.hs.publish")
 			}
 			close(c.handshakeDone)
 
@@ -634,9 +640,15 @@ func (c *Client) Close() error {
 	}
 
 closing:
+	if vt.On {
+		vt.Yield("cl.close.elected")
+	}
 	// Closing the underlying connection is what guarantees that an in-flight
 	// handshake, read, or write cannot prevent Close from completing.
 	c.closeErr = c.underlyingConn.Close()
+	if vt.On {
+		vt.Yield("cl.close.sockclosed")
+	}
 
 	if previous == clientStateHandshaking {
 		<-c.handshakeDone
@@ -647,6 +659,9 @@ closing:
 	}
 
 	c.state.Store(clientStateClosed)
+	if vt.On {
+		vt.Yield("cl.close.publish")
+	}
 	close(c.closeDone)
 	return c.closeErr
 }
